@@ -105,6 +105,8 @@ class TreeObserver:
             return f"{s['dtype']}[{s['atype']},{s['dims']!r}]"
         if k == "tree":
             return f"PyTree[{self.describe(s['leaf'])}" + (f",{s['struct']!r}]" if s.get("struct") else "]")
+        if k == "union" and s.get("pep604"):
+            return " | ".join(self.describe(i) for i in s["items"])
         if k in ("tuple", "union"):
             return f"{k}[{','.join(self.describe(i) for i in s['items'])}]"
         if k in ("listof", "dictof"):
@@ -123,6 +125,8 @@ class TreeObserver:
             st = s.get("struct")
             sk = "none" if st is None else "name" if st.isidentifier() else "composite"
             return f"tree({self.ann_shape(s['leaf'])};{sk})"
+        if k == "union" and s.get("pep604"):
+            return f"pep604union({','.join(self.ann_shape(i) for i in s['items'])})"
         if k in ("tuple", "union"):
             return f"{k}({','.join(self.ann_shape(i) for i in s['items'])})"
         if k in ("listof", "dictof"):
